@@ -43,6 +43,11 @@ class Check:
         self.level = level
         self.t0 = time.time()
         self.wd = tlc.workdir(f"verif-{prop}-")
+        rd = os.path.join(ROOT, "evidence", "replays")
+        if os.path.isdir(rd) and not self.args.replay:
+            for fn in os.listdir(rd):
+                if fn.startswith(prop + "-"):
+                    os.unlink(os.path.join(rd, fn))
         self.states = 0
         self.transitions = 0
         self.traces = 0
